@@ -487,6 +487,41 @@ theorem withIndex_source_resumes {σ π β : Type} {next : σ → Outcome (Optio
     exact this
   · exact E.collect_from n k
 
+/-- Converting a *partially consumed* iterator into its with-index form (`it.with_index()`,
+    `WithIndex::from(it)`, `it.into()`, `AsRecords::with_index`): the conversion only wraps the
+    iterator — it is the identity on the iterator's state — so after `k` plain calls the
+    with-index iterator continues at item `k` with the true indexes: nothing is yielded again,
+    the length is not reset, an exhausted iterator stays exhausted (`k ≥ total`: every item
+    `None`). -/
+theorem withIndex_of_advanced {σ π β : Type} {next : σ → Outcome (Option β × σ)} {s0 : σ}
+    {total : Nat} {item : Nat → Option β} {state : Nat → σ}
+    (E : Enumerates next s0 total item state) (counter : σ → π) (k n : Nat) :
+    collect next k s0 = .ok ((List.range k).map item, state k) ∧
+      collect (withIndexNext counter next) n (state k) =
+        .ok ((List.range' k n).map (fun j => (item j).map fun x => (counter (state j), x)),
+          state (k + n)) ∧
+      (total ≤ k → ∀ j ∈ List.range' k n, item j = none) := by
+  refine ⟨?_, (E.withIndex counter).collect_from n k, ?_⟩
+  · have := E.collect_from k 0
+    rw [E.start, Nat.zero_add, ← List.range_eq_range'] at this
+    exact this
+  · intro hk j hj
+    have := (List.mem_range'_1.mp hj).1
+    exact E.item_none j (by omega)
+
+/-- `ShapeIterator` is `Clone`: a copy taken after `k` calls is the same value, so it — and the
+    original — go on exactly as the iterator after `k` calls does (`n` more calls lead to the
+    state after `k + n` calls). -/
+theorem shapeIter_clone_continues (it : ShapeIter) (k n : Nat) :
+    ShapeIter.steps n (ShapeIter.steps k it) = ShapeIter.steps (k + n) it := by
+  induction k generalizing it with
+  | zero => simp [ShapeIter.steps]
+  | succ k ih =>
+    have e : k + 1 + n = (k + n) + 1 := by omega
+    rw [e]
+    simp only [ShapeIter.steps]
+    exact ih it.next.2
+
 /-! ## std's consumers (`count`, `last`, `fold`/`sum`/`collect`/`for_each`, `nth`)
 
   The two files override none of them, so they are std's loops over `next` (`drain`, `nthOf` in
